@@ -49,8 +49,8 @@ namespace pika::detail {
         {
             // return false if unblocked by timeout expiring
             PIKA_VERIF_POINT(::pika::verif::sem_wait_timed, this, static_cast<std::uint64_t>(value_));
-            if (cond_.wait_until(l, abs_time, "counting_semaphore::wait_until") !=
-                pika::threads::detail::thread_restart_state::unknown)
+            if (cond_.wait_until(l, abs_time, "counting_semaphore::wait_until") ==
+                pika::threads::detail::thread_restart_state::timeout)
             {
                 return false;
             }
